@@ -204,13 +204,20 @@ on...",
         if S not in MS:
             return None
 
-        restart_from = min([me.status.slot for me in MS if me.status.restart] + [size - 1])
+        # update the counters of the whole block at once, such that no counter is overwritten before it is read
+        if S is not MS[0]:
+            return None
 
-        if S.status.slot < restart_from:
-            MS[restart_from - S.status.slot].status.restarts_in_a_row = 0
-        else:
-            step = MS[S.status.slot - restart_from]
-            step.status.restarts_in_a_row = S.status.restarts_in_a_row + 1 if S.status.restart else 0
+        restart_from = min([me.status.slot for me in MS if me.status.restart] + [len(MS)])
+
+        # the step that will be at position k in the next block is the one at position k + restart_from now
+        new_restarts_in_a_row = [0] * len(MS)
+        for k in range(len(MS) - restart_from):
+            step = MS[k + restart_from]
+            new_restarts_in_a_row[k] = step.status.restarts_in_a_row + 1 if step.status.restart else 0
+
+        for step, restarts_in_a_row in zip(MS, new_restarts_in_a_row):
+            step.status.restarts_in_a_row = restarts_in_a_row
 
         return None
 
